@@ -122,7 +122,7 @@ func genHistory(e *Env, i, length int) []histStep {
 	r := Rng(e.Seed, "c18", i)
 	var hs []histStep
 	hs = append(hs, histStep{Op: "switch", Var: i % c18NVariants})
-	damages := []string{"stale", "noncompiling", "truncated", "garbage", "tail", "longer-variant", "same-length", "whitespace", "comment-before-header", "future-mtime", "ancient-mtime", "crlf", "crlf-stale", "bom"}
+	damages := []string{"stale", "noncompiling", "truncated", "garbage", "tail", "longer-variant", "same-length", "whitespace", "comment-before-header", "future-mtime", "ancient-mtime", "crlf", "crlf-stale", "bom", "other-tags-directive"}
 	for len(hs) < length {
 		switch x := r.Intn(12); {
 		case x < 3:
@@ -150,6 +150,11 @@ func genHistory(e *Env, i, length int) []histStep {
 		hs = append(hs, histStep{Op: "switch", Var: v}, histStep{Op: "gen"})
 	}
 	hs = append(hs, histStep{Op: "switch", Var: tl[len(tl)-1]}, histStep{Op: "gen"}, histStep{Op: "gen"}, histStep{Op: "diff"})
+	if i%2 == 0 {
+		// ... and, every other history, with an output as an earlier `gen -tags x` leaves it,
+		// regenerated and compared from the package's own directory
+		hs = append(hs, histStep{Op: "damage", Arg: "other-tags-directive"}, histStep{Op: "diff", Arg: "pkgdir"}, histStep{Op: "gen", Arg: "pkgdir"}, histStep{Op: "diff", Arg: "pkgdir"})
+	}
 	return hs
 }
 
@@ -288,7 +293,7 @@ func CheckC18(e *Env) int {
 					} else {
 						b = []byte(strings.ReplaceAll(string(base), "\n", "\r\n"))
 					}
-				case "same-length", "whitespace", "comment-before-header", "future-mtime", "ancient-mtime":
+				case "same-length", "whitespace", "comment-before-header", "future-mtime", "ancient-mtime", "other-tags-directive":
 					base := ref[1]
 					if c18Accepted[cur] && !c18NoOutput[cur] {
 						base = ref[cur]
@@ -300,6 +305,9 @@ func CheckC18(e *Env) int {
 						if idx := strings.LastIndex(string(b), "return"); idx > 0 {
 							b[idx] = 'R'
 						}
+					case "other-tags-directive":
+						// as left by an earlier `gen -tags extratag`: only the go:generate line differs
+						b = []byte(strings.Replace(string(b), "/cmd/wire\n", "/cmd/wire gen -tags \"extratag\"\n", 1))
 					case "whitespace":
 						b = append(b, '\n', '\n')
 					case "comment-before-header":
@@ -326,7 +334,21 @@ func CheckC18(e *Env) int {
 				log = append(log, fmt.Sprintf("%d damage output (%s, %d bytes)", k, h.Arg, len(b)))
 			case "gen", "diff", "check":
 				before := TakeSnapshot(root)
-				res := e.Wire(root, nil, h.Op, "./...")
+				// the package is named by ./... from the module root, or (every third gen/diff/check
+				// step) by "." / by nothing from its own directory
+				res := (*CmdResult)(nil)
+				form := (i + k) % 3
+				if h.Arg == "pkgdir" {
+					form = 1
+				}
+				switch form {
+				case 1:
+					res = e.Wire(pkgDir, nil, h.Op, ".")
+				case 2:
+					res = e.Wire(pkgDir, nil, h.Op)
+				default:
+					res = e.Wire(root, nil, h.Op, "./...")
+				}
 				after := TakeSnapshot(root)
 				changed := before.Diff(after)
 				got, rerr := os.ReadFile(out)
